@@ -28,7 +28,7 @@ import dclab
 from dclab import RTDCWriter
 from dclab.rtdc_dataset import feat_temp
 from dclab.rtdc_dataset.feat_anc_plugin.plugin_feature import (
-    PlugInFeature, remove_plugin_feature)
+    PlugInFeature, remove_plugin_feature, load_plugin_feature)
 from dclab.rtdc_dataset.feat_anc_core.af_fl_max_ctc import (
     MissingCrosstalkMatrixElementsError)
 from dclab.features.emodulus import get_emodulus
@@ -106,7 +106,7 @@ GROUP = {
     "emodulus": "emodulus", "fl1_max_ctc": "ctc", "fl2_max_ctc": "ctc",
     "fl3_max_ctc": "ctc", "area_um": "area_um", "time": "time", "volume": "volume",
     "ml_class": "ml_class", "plug_s": "plugin", "plug_t": "plugin", "plug_n": "plugin",
-    "plug_a": "plugin",
+    "plug_a": "plugin", "plug_f": "plugin",
     "deform": "basic", "aspect": "basic", "area_ratio": "basic", "index": "basic",
     "bright_avg": "image", "bright_sd": "image", "bright_bc_avg": "image",
     "bright_bc_sd": "image", "bright_perc_10": "image", "bright_perc_90": "image",
@@ -116,11 +116,12 @@ GROUP = {
 READ_POOL = (["emodulus"] * 5 + ["fl1_max_ctc", "fl2_max_ctc", "fl3_max_ctc"] * 2
              + ["area_um", "time", "volume"] * 2 + ["ml_class"] * 4
              + ["plug_s"] * 3 + ["plug_t"] * 2 + ["plug_n"] * 3 + ["plug_a"] * 4
+             + ["plug_f"] * 3
              + ["deform", "aspect", "area_ratio", "index", "bright_avg", "bright_sd",
                 "bright_bc_avg", "bright_bc_sd", "bright_perc_10", "bright_perc_90",
                 "inert_ratio_cvx", "inert_ratio_prnc", "inert_ratio_raw", "tilt"])
 WARM = ["emodulus", "fl1_max_ctc", "fl2_max_ctc", "fl3_max_ctc", "area_um", "time",
-        "volume", "ml_class", "plug_s", "plug_n", "plug_a"]
+        "volume", "ml_class", "plug_s", "plug_n", "plug_a", "plug_f"]
 #: features populated by the same recipe call (documented: "all ancillary features
 #: that share the same method will also be populated automatically")
 SIBLINGS = [{"bright_avg", "bright_sd"}, {"bright_bc_avg", "bright_bc_sd"},
@@ -136,6 +137,8 @@ ING = {
     # requires the ancillary feature area_um (which depends on the pixel size)
     # without listing that configuration key itself
     "plug_a": {"px", "plugin"},
+    # recipe loaded from a script file (re-written and re-loaded when the variant changes)
+    "plug_f": {"tmp_a", "plugin"},
 }
 KEY_TO_FEATS = {}
 for _f, _ings in ING.items():
@@ -384,8 +387,34 @@ def register_plugins(variant):
               "feature names": ["plug_a"],
               "features required": ["area_um"],
               "version": f"0.{variant}.0"}
+    # a recipe that lives in a script file: the documented way to register plugins;
+    # the same file is edited (other variant) and loaded again
+    pdir = boot.tmproot() / "vf_plugin_scripts"
+    pdir.mkdir(exist_ok=True)
+    script = pdir / "vf_plugfile.py"
+    # (the two versions differ in size: a rewrite within one timestamp tick of the
+    # file system is still a visible change of the file)
+    script.write_text(PLUG_SCRIPT.format(add=[0.5, 7.0][variant], ver=variant)
+                      + "# variant\n" * (1 + variant))
     return [PlugInFeature("plug_s", info_st), PlugInFeature("plug_t", info_st),
-            PlugInFeature("plug_n", info_n), PlugInFeature("plug_a", info_a)]
+            PlugInFeature("plug_n", info_n), PlugInFeature("plug_a", info_a)] \
+        + list(load_plugin_feature(script))
+
+
+PLUG_SCRIPT = '''import numpy as np
+
+
+def compute(rtdc_ds):
+    a = np.asarray(rtdc_ds["tmp_a"][:], dtype=float)
+    return {{"plug_f": a * 3 + {add}}}
+
+
+info = {{"method": compute, "description": "vf file plugin",
+        "long description": "vf file plugin", "feature names": ["plug_f"],
+        "feature labels": ["plug f"], "features required": ["tmp_a"],
+        "config required": [], "method check required": lambda x: True,
+        "scalar feature": [True], "version": "0.{ver}.0"}}
+'''
 
 
 # ------------------------------------------------------------------ simulator
@@ -578,6 +607,8 @@ class Sim:
             return self.variant is not None and "tmp_a" in self.temps and "uk" in c
         if f == "plug_n":
             return self.variant is not None and has("image") and "um" in c
+        if f == "plug_f":
+            return self.variant is not None and "tmp_a" in self.temps
         if f == "plug_a":
             return self.variant is not None and self.avail("area_um")
         if f == "emodulus":
@@ -657,6 +688,8 @@ class Sim:
             if f == "plug_s":
                 return a * k if self.variant == 0 else a * k - 1.0
             return a + k if self.variant == 0 else a + 2 * k
+        if f == "plug_f":
+            return self.temps["tmp_a"] * 3 + [0.5, 7.0][self.variant]
         if f == "plug_a":
             a = np.asarray(self.direct("area_um"), dtype=float) / 2
             return a if self.variant == 0 else a + 1.0
